@@ -22,7 +22,7 @@ RULE = ("Random interleavings (5-80 operations) of quotes and discontinuations o
         "contains a discontinuation followed by a quote for the same contract, or a chain-addressed quote after a roll.")
 ASSUMPTIONS = ["a quote is 'accepted' iff its book is alive; rejected quotes must not be appended to the history"]
 REQUIRED = ["C14:price", "C14:alive", "C14:history", "C14:sides", "C14:chain-key-is-lead", "C14:string-key-same-book", "C14:vectors"]
-REQUIRED_CATS = ["late-print-stamped-before-discontinuation", "chain-quote-built-before-roll", "quote-type:int", "quote-type:npint", "quote-type:f32", "chain-from-unsorted-list", "quote:one-side-only", "query:sparse", "query:all-keys-every-op", "op:disc", "op:chainq", "op:strq", "quote-after-death", "chain-after-roll"]
+REQUIRED_CATS = ["refused-query-then-carry-on", "late-print-stamped-before-discontinuation", "chain-quote-built-before-roll", "quote-type:int", "quote-type:npint", "quote-type:f32", "chain-from-unsorted-list", "quote:one-side-only", "query:sparse", "query:all-keys-every-op", "op:disc", "op:chainq", "op:strq", "quote-after-death", "chain-after-roll"]
 TECHNIQUE = "runtime monitoring: executable reference model (dict of books) compared after every operation of generated histories"
 LEVEL_TEXT = ("Exploration: history + executable model. Every generated quote/discontinuation history is replayed against a small "
               "deterministic model and every observable of every book is compared after each operation.")
@@ -155,6 +155,13 @@ def case(ctx, i, tier):
             lob_s = ex[s_]
             ctx.check("C14:string-key-same-book", lob_o is lob_s, symbol=s_)
             lob = lob_o
+            if rng.random() < 0.03:
+                # a query the book refuses (an unknown field), caught by the caller: the book goes on as before
+                try:
+                    lob.to_frame("last_price")
+                except Exception:
+                    pass
+                ctx.cat("refused-query-then-carry-on")
             ctx.check("C14:price", same(lob.bid_price, mm["bid"]) and same(lob.ask_price, mm["ask"]) and
                       same(lob.mid_price, (mm["ask"] + mm["bid"]) / 2),
                       symbol=s_, step=step, got=[lob.bid_price, lob.ask_price], want=[mm["bid"], mm["ask"]])
